@@ -28,7 +28,10 @@ CHECKS = {
  "C03": ("model checking + conformance replay",
          "TLC checks BorrowsInPlace (every borrow of the ε-copy machine is a block row of the serializer machine: same offset, "
          "same length, inside the input, aligned for its element type); replay compares pointer-minus-base, byte length and "
-         "address residue of every borrowed part of the real ε-copy result with the specification's borrow list.",
+         "address residue of every borrowed part of the real ε-copy result with the specification's borrow list and with the "
+         "blocks the real serializer wrote (recording WriteWithNames), at the aligned base and at base residues 1, 2, 4, 8; "
+         "allocation independence: the specification's Scale operator lengthens every borrowed sequence 3 and 16 times and "
+         "the bytes allocated by the real ε-copy call must not change.",
          "6 C03"),
  "C06": ("model checking + conformance replay (reference encoder)",
          "EpsFormat.tla is the published format 1.1 as a pure function; TLC checks OutIsEncode (the step machine's output is "
@@ -59,7 +62,7 @@ CHECKS = {
          "interrupt, return Ok(0) or fail, and store() onto /dev/full and unopenable paths are driven from the harness.",
          "6 C13"),
  "C16": ("model checking + conformance replay",
-         "MC_Ser over every slice / exact-size-iterator source (standalone and inside G<_>): TLC checks that the machine's output "
+         "MC_Ser over every slice / exact-size-iterator source (standalone, inside G<_>, and slices whose items are slices): TLC checks that the machine's output "
          "equals the reference encoding of the corresponding vector and that a lying iterator ends in LengthMismatch(actual, "
          "announced) for all announced lengths 0..3; replay: the real stream of the source is byte-compared with the real stream "
          "of the vector, deserialized as the vector type in both modes, and lying iterators are replayed.",
@@ -133,7 +136,7 @@ CHECKS = {
          "on its error path) validated by TLC against Trace_Loader.tla.",
          "6 C09"),
  "C05": ("model checking + generated programs (derive grammar) + conformance replay",
-         "spec/Derive.tla enumerates the supported grammar of definitions (377 definitions, 1131 instantiations within the "
+         "spec/Derive.tla enumerates the supported grammar of definitions (385 definitions, 1185 instantiations within the "
          "bounds) with the predictions of the recipe operators; the generator writes them as Rust with #[derive(Epserde)]: "
          "per-definition compilation outcome from cargo's JSON messages, real ε-copy type name / IS_ZERO_COPY / layout / hash "
          "preimages against the predictions, and MC_RoundTrip over the grammar types (serializer, full-copy and ε-copy machines, "
